@@ -43,7 +43,8 @@ def c07(tier, seed):
           "w,pa|nq,don,dof"]
     sc3 = ["w,pa|w,pa|nq,nq", "w,pa|nq|don,nq,dof", "w,pa|don,nq,dof|pa", "w,pa|wf,pa|don,nq,dof"]
     # an enqueue racing with the destruction of somebody else's DisableQueueNotify (needs two preemptions)
-    sc3b = ["w,pa|don,dof|nq", "w,pa|don,don,dof,dof|nq,nq"]
+    # ... and two threads holding overlapping (not nested) DisableQueueNotify scopes: "opened first" is not "closed last"
+    sc3b = ["w,pa|don,dof|nq", "w,pa|don,don,dof,dof|nq,nq", "w,pa|don,dof|don,nq,dof"]
     scen = ([{"scenario": s} for s in sc] + [{"scenario": s, "max": 2500 if quick else 80000} for s in sc3]
             + [{"scenario": s, "bound": 2, "max": 12000 if quick else 200000, "rand": 1500 if quick else 20000} for s in sc3b])
     models = [{"module": "ConcQueueMC", "tag": "wakeup", "cfg": mc_cfg([1, 2], "W2")},
@@ -78,6 +79,12 @@ RUNNERS_CC = [{"source": "cc_run.cpp", "name": "cc_run_list", "defines": ["W_OBJ
               {"source": "cc_run.cpp", "name": "cc_run_umap", "defines": ["W_OBJ=2"]}]
 
 
+STRESS_CC = [{"source": "cc_stress.cpp", "name": "cc_stress_list_mutex", "defines": ["W_OBJ=0", "W_MUTEX=0"]},
+             {"source": "cc_stress.cpp", "name": "cc_stress_list_spin", "defines": ["W_OBJ=0", "W_MUTEX=1"]},
+             {"source": "cc_stress.cpp", "name": "cc_stress_umap_mutex", "defines": ["W_OBJ=2", "W_MUTEX=0"]},
+             {"source": "cc_stress.cpp", "name": "cc_stress_map_spin", "defines": ["W_OBJ=1", "W_MUTEX=1"]}]
+
+
 def cc_cfg(threads, scen, defects=(), initlen=2, maxnodes=6):
     return ("INIT Init\nNEXT Next\nCONSTANTS Threads = {%s}\n Scenarios <- %s\n InitLen = %d\n MaxNodes = %d\n Defects = %s\n"
             "INVARIANT Linearizable\nINVARIANT RefinesList\nINVARIANT NoLeakAtEnd\nINVARIANT NoDeadlock\nCHECK_DEADLOCK FALSE\n"
@@ -93,7 +100,9 @@ def c03(tier, seed):
     models = [{"module": "ConcCLMC", "tag": "2threads", "cfg": cc_cfg([1, 2], "ScenSet")}]
     if not quick:
         models.append({"module": "ConcCLMC", "tag": "3threads-1call", "cfg": cc_cfg([1, 2, 3], "ScenSet1"), "heap": "16g"})
+    stress_sc = [{"scenario": s, "every": 2} for s in ["2:i1|r1", "2:a,v|r1,p", "2:p,o1|r1,e", "2:i1,v|r1,a", "2:a,r10|v,e", "2:i1|r1|v", "2:a,f|p,e|r1,r2", "1:p,e|a,e|r1"]]
     return {"models": models, "runners": RUNNERS_CC, "trace_module": "TraceCC", "scenarios": scen,
+            "stress_runners": STRESS_CC, "stress_scenarios": stress_sc,
             "corpus": [],
             "rule": "ConcCL.tla (threads x micro-steps of callbacklist.h with the abstract list updated at the linearization points) model-checked over all "
                     "interleavings of the scenario sets; on the real CallbackList and EventDispatcher (std::map and std::unordered_map) every scenario "
@@ -101,7 +110,8 @@ def c03(tier, seed):
                     "schedule enumeration with a preemption bound plus seeded random schedules; TraceCC.tla decides linearizability of results and of "
                     "the final order by tracking the set of consistent abstract configurations, the traversal visit rules, no deadlock and no unlocked "
                     "structural access; non-trivial = distinct schedules that switch threads at a decision point",
-            "assumptions": ASSUME + ["the shipped std::mutex / SpinLock policies are replaced by the controlled mutex in these runs"]}
+            "assumptions": ASSUME + ["the controlled runs replace the shipped std::mutex / SpinLock by the scheduler's mutex; the stress runs use the shipped ones with real "
+                                     "threads under ThreadSanitizer (data races are reported by TSan, not specified)"]}
 
 
 PLANS = {"C03": c03, "C06": c06, "C07": c07, "C11": c11}
